@@ -256,7 +256,7 @@ fn entry_matches(e: &Entry, kv: (u8, u8)) -> bool {
 }
 
 macro_rules! i3_object_op {
-	($name:ident, $pat:expr, $n:expr) => {
+	($name:ident, $pat:expr, $n:expr, $op:expr) => {
 		#[cfg(kani)]
 		#[kani::proof]
 		#[kani::unwind(6)]
@@ -271,7 +271,9 @@ macro_rules! i3_object_op {
 			let mut m = Model::of(&keys, &vals, N);
 			let k = any_small();
 			let v = any_small();
-			let op: u8 = kani::any();
+			// the operation is concrete per harness instance (a symbolic choice among
+			// the six operations put all of them into one formula: 40 min, not finished)
+			let op: u8 = $op;
 			match op {
 				0 => {
 					let fresh = o.push(key(k), val(v));
@@ -420,21 +422,81 @@ macro_rules! i3_object_op {
 				}
 			}
 			assert!(object_is(&o, &m.keys, &m.vals, m.n), "C06:object-equals-list-model-and-queries-equal-linear-scan");
-			kani::cover!(op == 0 && m.contains(k));
-			kani::cover!(op == 1);
-			kani::cover!(N < 2 || (op == 2 && m.n < N));
-			kani::cover!(N < 1 || (op == 3 && m.n < N));
-			kani::cover!(N < 2 || (op == 4 && m.n + 2 == N));
-			kani::cover!(op == 5);
+			kani::cover!(op != 0 || N < 1 || m.n == N + 1);
+			kani::cover!(op != 1 || m.n == N + 1);
+			kani::cover!(op != 2 || P[0] != P[1] || N < 2 || m.n < N);
+			kani::cover!(op != 2 || m.n == N + 1);
+			kani::cover!(op != 3 || N < 1 || m.n < N);
+			kani::cover!(op != 4 || P[0] != P[1] || N < 2 || m.n + 2 == N);
+			kani::cover!(op != 4 || m.n == N);
+			kani::cover!(op != 5 || N < 1 || m.n < N);
 			core::mem::forget(o);
 		}
 	};
 }
 
-i3_object_op!(i3_object_op_empty, [0, 1, 2], 0);
-i3_object_op!(i3_object_op_a, [0, 1, 2], 1);
-i3_object_op!(i3_object_op_aa, [0, 0, 1], 2);
-i3_object_op!(i3_object_op_ab, [0, 1, 2], 2);
+i3_object_op!(i3_push_empty, [0, 1, 2], 0, 0);
+i3_object_op!(i3_push_front_empty, [0, 1, 2], 0, 1);
+i3_object_op!(i3_insert_empty, [0, 1, 2], 0, 2);
+i3_object_op!(i3_remove_at_empty, [0, 1, 2], 0, 3);
+i3_object_op!(i3_remove_empty, [0, 1, 2], 0, 4);
+i3_object_op!(i3_remove_unique_empty, [0, 1, 2], 0, 5);
+i3_object_op!(i3_push_a, [0, 1, 2], 1, 0);
+i3_object_op!(i3_push_front_a, [0, 1, 2], 1, 1);
+i3_object_op!(i3_insert_a, [0, 1, 2], 1, 2);
+i3_object_op!(i3_remove_at_a, [0, 1, 2], 1, 3);
+i3_object_op!(i3_remove_a, [0, 1, 2], 1, 4);
+i3_object_op!(i3_remove_unique_a, [0, 1, 2], 1, 5);
+i3_object_op!(i3_push_aa, [0, 0, 1], 2, 0);
+i3_object_op!(i3_push_front_aa, [0, 0, 1], 2, 1);
+i3_object_op!(i3_insert_aa, [0, 0, 1], 2, 2);
+i3_object_op!(i3_remove_at_aa, [0, 0, 1], 2, 3);
+i3_object_op!(i3_remove_aa, [0, 0, 1], 2, 4);
+i3_object_op!(i3_remove_unique_aa, [0, 0, 1], 2, 5);
+i3_object_op!(i3_push_ab, [0, 1, 2], 2, 0);
+i3_object_op!(i3_push_front_ab, [0, 1, 2], 2, 1);
+i3_object_op!(i3_insert_ab, [0, 1, 2], 2, 2);
+i3_object_op!(i3_remove_at_ab, [0, 1, 2], 2, 3);
+i3_object_op!(i3_remove_ab, [0, 1, 2], 2, 4);
+i3_object_op!(i3_remove_unique_ab, [0, 1, 2], 2, 5);
+
+/// `Object::sort` on a two-entry object: entries end up in (key, value) order
+/// and the key index is the canonical index of the NEW arrangement (a rebuild
+/// on top of the old table, or a missing rebuild, leaves it stale). Keys are
+/// symbolic (any two of the four-key universe, equal or not); values are
+/// `null` so that the derived `Value::cmp` is not unwound through its
+/// recursive variants.
+macro_rules! i3_sort {
+	($name:ident, $pat:expr) => {
+		#[cfg(kani)]
+		#[kani::proof]
+		#[kani::unwind(6)]
+		#[kani::stub(smallvec::SmallVec::try_grow, crate::verif::util::no_grow)]
+		fn $name() {
+			const P: [usize; 3] = $pat;
+			let cls = any_classes();
+			let keys = keys_of(&P, &cls);
+			let vals = [0u8, 0, 0];
+			let mut o = object_of(&P, &keys, &vals, 2);
+			o.sort();
+			// str order of the universe: "" < "a" < "b" < "c"
+			let rank = |k: u8| if k == 3 { 0u8 } else { k + 1 };
+			let swap = rank(keys[0]) > rank(keys[1]);
+			let m = if swap {
+				Model::of(&[keys[1], keys[0], keys[2]], &vals, 2)
+			} else {
+				Model::of(&keys, &vals, 2)
+			};
+			assert!(object_is(&o, &m.keys, &m.vals, 2), "C06:sort-orders-entries-and-rebuilds-the-index");
+			kani::cover!(swap || P[0] == P[1]);
+			kani::cover!(!swap);
+			core::mem::forget(o);
+		}
+	};
+}
+
+i3_sort!(i3_sort_ab, [0, 1, 2]);
+i3_sort!(i3_sort_aa, [0, 0, 1]);
 
 // ---------------------------------------------------------------------------
 // C09 / C10: the canonicalization comparator (object::canonical_cmp, the
@@ -638,6 +700,35 @@ c14_index_independence!(c14_index_independence_a, [0, 1, 2], 1);
 c14_index_independence!(c14_index_independence_aa, [0, 0, 1], 2);
 c14_index_independence!(c14_index_independence_ab, [0, 1, 2], 2);
 
+/// A strict prefix of an entry list is a different, smaller object (the
+/// length takes part in ==, cmp and partial_cmp).
+macro_rules! c14_prefix {
+	($name:ident, $pat:expr, $n:expr) => {
+		#[cfg(kani)]
+		#[kani::proof]
+		#[kani::unwind(10)]
+		#[kani::stub(smallvec::SmallVec::try_grow, crate::verif::util::no_grow)]
+		fn $name() {
+			const N: usize = $n;
+			const P: [usize; 3] = $pat;
+			let cls = any_classes();
+			let keys = keys_of(&P, &cls);
+			let vals = any3();
+			let a = object_of(&P, &keys, &vals, N);
+			let d = object_of(&P, &keys, &vals, N - 1);
+			assert!(a != d && d != a, "C14:object-eq-is-entry-list-equality");
+			assert!(a.cmp(&d) == Ordering::Greater && d.cmp(&a) == Ordering::Less, "C14:object-cmp-equal-exactly-when-eq");
+			assert!(a.partial_cmp(&d) == Some(Ordering::Greater) && d.partial_cmp(&a) == Some(Ordering::Less), "C14:partial-cmp-is-some-cmp");
+			kani::cover!(cls[0] == 3);
+			core::mem::forget((a, d));
+		}
+	};
+}
+
+c14_prefix!(c14_prefix_a, [0, 1, 2], 1);
+c14_prefix!(c14_prefix_ab, [0, 1, 2], 2);
+c14_prefix!(c14_prefix_aa, [0, 0, 1], 2);
+
 macro_rules! c14_clone {
 	($name:ident, $pat:expr, $n:expr) => {
 		#[cfg(kani)]
@@ -747,6 +838,60 @@ c11_array_iter_mapped!(c11_array_iter_mapped_k0, 0);
 c11_array_iter_mapped!(c11_array_iter_mapped_k1, 1);
 c11_array_iter_mapped!(c11_array_iter_mapped_k2, 2);
 c11_array_iter_mapped!(c11_array_iter_mapped_k3, 3);
+
+/// Conversions that carry code-map information report a kind mismatch at the
+/// index of the offending fragment: `Vec<bool>::try_from_json_at` on a heap
+/// array of three scalars whose code-map volumes are SYMBOLIC (each item
+/// stands for a subtree of arbitrary size: the conversion reads sibling
+/// volumes only through `iter_mapped`), with a wrong-kind value planted at a
+/// symbolic position (or nowhere).
+#[cfg(kani)]
+#[kani::proof]
+#[kani::unwind(18)]
+fn c11_vec_try_from_json_reports_the_offending_fragment() {
+	use crate::TryFromJson;
+	let bad: usize = kani::any();
+	kani::assume(bad <= 3); // 3 = no wrong-kind item
+	let b: [bool; 3] = [kani::any(), kani::any(), kani::any()];
+	let mut items = Vec::with_capacity(3);
+	let mut i = 0;
+	while i < 3 {
+		items.push(if i == bad { Value::Null } else { Value::Boolean(b[i]) });
+		i += 1;
+	}
+	let json = Value::Array(items);
+	let mut map = junk_code_map();
+	let base: usize = kani::any();
+	kani::assume(base <= 2);
+	let vols = [any_volume(), any_volume(), any_volume()];
+	let mut at = base + 1;
+	let mut want = [0usize; 3];
+	let mut i = 0;
+	while i < 3 {
+		want[i] = at;
+		map.get_mut(at).unwrap().volume = vols[i];
+		at += vols[i];
+		i += 1;
+	}
+	let r = <Vec<bool> as TryFromJson>::try_from_json_at(&json, &map, base);
+	match &r {
+		Ok(v) => {
+			assert!(bad == 3, "C11:conversion-reports-kind-mismatch");
+			assert!(v.len() == 3 && v[0] == b[0] && v[1] == b[1] && v[2] == b[2], "C11:conversion-keeps-items-in-order");
+		}
+		Err(e) => {
+			assert!(bad < 3, "C11:conversion-succeeds-on-matching-kinds");
+			assert!(e.offset == want[bad], "C11:conversion-error-at-the-index-of-the-offending-fragment");
+			assert!(e.value.found == crate::Kind::Null && e.value.expected == crate::KindSet::BOOLEAN, "C11:conversion-error-names-the-kinds");
+		}
+	}
+	// a non-array is reported at its own offset
+	let r2 = <Vec<bool> as TryFromJson>::try_from_json_at(&Value::Null, &map, base);
+	assert!(matches!(&r2, Err(e) if e.offset == base && e.value.expected == crate::KindSet::ARRAY), "C11:conversion-error-at-the-index-of-the-offending-fragment");
+	kani::cover!(bad == 2 && vols[0] == 3 && vols[1] == 2);
+	kani::cover!(bad == 3);
+	core::mem::forget((r, r2, json, map));
+}
 
 /// Object layout per the C05 specification: entry i at base + 1 + sum over the
 /// entries before it of (2 + volume of their value); key at +1, value at +2.
